@@ -228,6 +228,61 @@ Definition rename_to (i : nat) (a : taction) : taction :=
 Definition core (s : fstate) :=
   (now s, fstart s, gnorm s, gpad s, gblk s, bstart s, bactive s, rts s, slots s, sigp s).
 
+(** ** the returned list: slot i of the combined run *)
+Lemma filter_collect_none : forall (sl : list (option taction)) (f : nat -> N) v,
+  (forall j ta, nth_error sl j = Some (Some ta) -> taction_machine ta = f j) ->
+  (forall j, f j <> v) ->
+  filter (fun a => taction_machine a =? v) (collect_actions sl) = [].
+Proof.
+  unfold collect_actions.
+  induction sl as [|o sl IH]; intros f v Hf Hv; [reflexivity|].
+  cbn [flat_map]. rewrite filter_app.
+  rewrite (IH (fun j => f (S j)) v); [|intros j ta Hj; apply (Hf (S j)); exact Hj|intros j; apply Hv].
+  rewrite app_nil_r. destruct o as [a|]; [|reflexivity].
+  cbn [filter]. rewrite (Hf 0%nat a eq_refl).
+  destruct (N.eqb_spec (f 0%nat) v) as [E|E]; [exfalso; eapply Hv; eauto|reflexivity].
+Qed.
+
+Lemma filter_collect : forall (sl : list (option taction)) (f : nat -> N) i,
+  (forall j ta, nth_error sl j = Some (Some ta) -> taction_machine ta = f j) ->
+  (forall j, j <> i -> f j <> f i) ->
+  filter (fun a => taction_machine a =? f i) (collect_actions sl) =
+  match nth_error sl i with Some (Some a) => [a] | _ => [] end.
+Proof.
+  induction sl as [|o sl IH]; intros f i Hf Hinj.
+  - destruct i; reflexivity.
+  - unfold collect_actions. cbn [flat_map]. fold (collect_actions sl). rewrite filter_app.
+    destruct i as [|i].
+    + cbn [nth_error].
+      rewrite (filter_collect_none sl (fun j => f (S j)) (f 0%nat));
+        [|intros j ta Hj; apply (Hf (S j)); exact Hj|intros j; apply Hinj; lia].
+      rewrite app_nil_r. destruct o as [a|]; [|reflexivity].
+      cbn [filter]. rewrite (Hf 0%nat a eq_refl), N.eqb_refl. reflexivity.
+    + cbn [nth_error].
+      rewrite (IH (fun j => f (S j)) i);
+        [|intros j ta Hj; apply (Hf (S j)); exact Hj|intros j Hj; apply Hinj; lia].
+      destruct o as [a|]; [|reflexivity].
+      cbn [filter]. rewrite (Hf 0%nat a eq_refl).
+      destruct (N.eqb_spec (f 0%nat) (f (S i))) as [E|E]; [exfalso; eapply (Hinj 0%nat); eauto|reflexivity].
+Qed.
+
+(** ** the initial runtime of machine i *)
+Lemma init_rts_nth : forall tp ms p rs p' i m,
+  init_rts tp p ms = Ok (rs, p') -> nth_error ms i = Some m ->
+  exists st0 q, nth_error (states m) 0 = Some st0 /\
+    nth_error rs i =
+    Some (mkmrt 0 (match saction st0 with Some a => fst (sample_limit tp q a) | None => 0 end)
+                0 0 0 0 0 false false).
+Proof.
+  induction ms as [|m0 ms IH]; intros p rs p' i m H Hi; [destruct i; discriminate Hi|].
+  cbn [init_rts] in H. mbind H as st0 E0. apply get_ok in E0.
+  destruct (match saction st0 with Some a => sample_limit tp p a | None => (0, p) end) as [l q] eqn:El.
+  mbind H as [rs' p''] Er. inversion H; subst. destruct i as [|i].
+  - inversion Hi; subst. exists st0, p. split; [exact E0|]. cbn [nth_error].
+    destruct (saction st0); [rewrite El|inversion El]; reflexivity.
+  - cbn [nth_error] in Hi |- *. eapply IH; eauto.
+Qed.
+
 (** ** the simulation *)
 Section Sim.
   Variable K : N -> Prop.
@@ -317,19 +372,25 @@ Section Sim.
     Rel s s1 ->
     nth_error (rts s') i = nth_error (rts s) i ->
     nth_error (slots s') i = nth_error (slots s) i ->
-    acct_same s s' -> sigp s' = sigp s -> Rel s' s1.
+    (now s', fstart s', gnorm s', gpad s', gblk s', bstart s', bactive s') =
+    (now s, fstart s, gnorm s, gpad s, gblk s, bstart s, bactive s) ->
+    sigp s' = sigp s -> Rel s' s1.
   Proof.
-    intros s s' s1 [] Hr Hs A Hg. destruct A. constructor; try congruence.
+    intros s s' s1 [] Hr Hs A Hg. injection A as A1 A2 A3 A4 A5 A6 A7. constructor; try congruence.
     - rewrite Hr; assumption.
     - rewrite Hs; assumption.
   Qed.
 
-  Lemma Rel_set_rt_other : forall s s1 j r r',
-    Rel s s1 -> j <> i -> nth_error (rts s) j = Some r -> same_acct r r' -> Rel (set_rt s j r') s1.
+  Lemma acct_same_globals : forall s s', acct_same s s' ->
+    (now s', fstart s', gnorm s', gpad s', gblk s', bstart s', bactive s') =
+    (now s, fstart s, gnorm s, gpad s, gblk s, bstart s, bactive s).
+  Proof. intros s s' []. congruence. Qed.
+
+  Lemma Rel_set_rt_other : forall s s1 j r',
+    Rel s s1 -> j <> i -> Rel (set_rt s j r') s1.
   Proof.
-    intros s s1 j r r' HR Hj Hr Hs. apply (Rel_frame s); auto.
-    - cbn. apply nth_error_upd_neq; exact Hj.
-    - eapply acct_same_set_rt; eauto.
+    intros s s1 j r' HR Hj. apply (Rel_frame s); auto.
+    cbn. apply nth_error_upd_neq; exact Hj.
   Qed.
 
   (** *** steps of a neighbour *)
@@ -338,7 +399,7 @@ Section Sim.
   Proof.
     intros fuel s j ev s' b s1 Hj HR H.
     destruct (step_frame _ _ _ _ _ _ _ _ i H) as (A & B & C); [congruence|].
-    apply (Rel_frame s); auto. eapply transition_sigp; eauto.
+    apply (Rel_frame s); auto; [apply acct_same_globals; exact C|]. eapply transition_sigp; eauto.
   Qed.
 
   Lemma decrement_other : forall s j s' s1,
@@ -346,7 +407,7 @@ Section Sim.
   Proof.
     intros s j s' s1 Hj HR H.
     destruct (decrement_frame _ _ _ _ _ i H) as (A & B & C); [congruence|].
-    apply (Rel_frame s); auto. eapply decrement_limit_sigp; eauto.
+    apply (Rel_frame s); auto; [apply acct_same_globals; exact C|]. eapply decrement_limit_sigp; eauto.
   Qed.
 
   Lemma trans_dec_other : forall s j ev dec s' s1,
@@ -686,7 +747,7 @@ Section Sim.
     - intros j sa sa' sb Hj HRa Hb. unfold ns_body in Hb. mbind Hb as r Er. apply get_ok in Er.
       mbind Hb as [sx b] E. inversion Hb; subst.
       eapply transition_other; [exact Hj| |exact E].
-      eapply Rel_set_rt_other; eauto. sa.
+      apply Rel_set_rt_other; auto.
     - intros sa sb sa' sb' HRa Hb Hb1. unfold ns_body in Hb, Hb1.
       mbind Hb as r Er. mbind Hb1 as r1 Er1.
       assert (r1 = r) by (eapply Rel_get_rt; eauto). subst r1.
@@ -724,7 +785,7 @@ Section Sim.
       mbind Hb as s0 E0. mbind Hb as [sx b] E. inversion Hb; subst.
       eapply transition_other; [exact Hj| |exact E].
       destruct (negb (blocked =? 0)); [|inversion E0; subst; exact HRa].
-      mbind E0 as d Ed. inversion E0; subst. eapply Rel_set_rt_other; eauto.
+      mbind E0 as d Ed. inversion E0; subst. apply Rel_set_rt_other; auto.
     - intros sa sb sa' sb' HRa Hb Hb1. unfold be_body in Hb, Hb1.
       change (clk c1) with (clk c) in Hb1.
       mbind Hb as r Er. mbind Hb1 as r1 Er1.
@@ -737,5 +798,377 @@ Section Sim.
       mbind Hb as [sx b] E. mbind Hb1 as [sx1 b1] E1. inversion Hb; inversion Hb1; subst.
       exact (proj1 (transition_solo _ _ _ _ _ _ _ _ HR0 E E1)).
   Qed.
+
+  (** *** one reported event *)
+  Ltac globals HR :=
+    unfold set_gnorm, set_gpad, set_blocking;
+    apply (Rel_globals _ _ _ _ _ _ _ _ _ _ _ _ HR); destruct HR; congruence.
+
+  Lemma proj_id_other : forall x, x <> N.of_nat i -> proj_id i x = FOREIGN.
+  Proof. intros x Hx. unfold proj_id. destruct (N.eqb_spec x (N.of_nat i)); [contradiction|reflexivity]. Qed.
+
+  Lemma proj_id_same : proj_id i (N.of_nat i) = 0.
+  Proof. unfold proj_id. rewrite N.eqb_refl. reflexivity. Qed.
+
+  Lemma process_event_solo : forall s s1 e s' s1',
+    Rel s s1 ->
+    process_event c tp s e = Ok s' -> process_event c1 tp1 s1 (proj_event i e) = Ok s1' -> Rel s' s1'.
+  Proof.
+    intros s s1 e s' s1' HR H H1. pose proof (Rel_lt _ _ HR) as [Hlt Hone].
+    unfold process_event, nmach in H, H1. rewrite Hone in H1.
+    destruct e as [ | | | |x| |x| |x|x]; cbn [proj_event] in H1.
+    - eapply trans_all_solo; eauto.
+    - eapply trans_all_solo; eauto.
+    - eapply trans_all_solo; eauto.
+    - (* NormalSent *)
+      eapply normal_sent_all_solo; [exact Hlt| |exact H|exact H1]. globals HR.
+    - (* PaddingSent x *)
+      assert (HRg : Rel (set_gpad s (gpad s + 1)) (set_gpad s1 (gpad s1 + 1))) by (globals HR).
+      destruct (N.eqb_spec x (N.of_nat i)) as [->|Hx].
+      + rewrite proj_id_same in H1. cbn [N.of_nat N.leb N.compare] in H1.
+        replace (N.of_nat (length (rts s)) <=? N.of_nat i) with false in H
+          by (symmetry; apply N.leb_gt; lia).
+        rewrite Nat2N.id in H. change (N.to_nat 0) with 0%nat in H1.
+        mbind H as r Er. mbind H1 as r1 Er1.
+        assert (r1 = r) by (eapply (Rel_get_rt _ _ _ _ HRg); eauto). subst r1.
+        eapply trans_dec_solo; [|exact H|exact H1]. apply Rel_set_rt. exact HRg.
+      + rewrite (proj_id_other x Hx) in H1. change (N.of_nat 1 <=? FOREIGN) with true in H1.
+        inversion H1; subst s1'. clear H1.
+        destruct (N.of_nat (length (rts s)) <=? x); [inversion H; subst; exact HRg|].
+        mbind H as r Er.
+        assert (Hj : N.to_nat x <> i) by (intros Hc; apply Hx; rewrite <- Hc, N2Nat.id; reflexivity).
+        eapply trans_dec_other; [exact Hj| |exact H]. apply Rel_set_rt_other; auto.
+    - eapply trans_all_solo; eauto.
+    - (* BlockingBegin x *)
+      eapply blocking_begin_all_solo; [exact Hlt| |exact H|exact H1].
+      rewrite (rl_bactive _ _ HR). destruct (bactive s); [exact HR|]. globals HR.
+    - (* BlockingEnd *)
+      change (clk c1) with (clk c) in H1.
+      rewrite (rl_bactive _ _ HR), (rl_now _ _ HR), (rl_bstart _ _ HR), (rl_gblk _ _ HR) in H1.
+      mbind H as [s0 blocked] E0. mbind H1 as [s10 blocked1] E10.
+      assert (HR0 : Rel s0 s10 /\ blocked1 = blocked).
+      { destruct (bactive s).
+        - mbind E0 as g Eg. cbn [bind] in E10. inversion E0; inversion E10; subst.
+          split; [|reflexivity]. globals HR.
+        - inversion E0; inversion E10; subst. split; [exact HR|reflexivity]. }
+      destruct HR0 as [HR0 ->].
+      assert (Hlen : length (rts s0) = length (rts s)).
+      { destruct (bactive s); [|inversion E0; reflexivity].
+        mbind E0 as g Eg. inversion E0; subst. reflexivity. }
+      eapply blocking_end_all_solo; [exact Hlt|exact HR0|exact H|exact H1].
+    - (* TimerBegin x *)
+      destruct (N.eqb_spec x (N.of_nat i)) as [->|Hx].
+      + rewrite proj_id_same in H1. cbn [N.of_nat N.leb N.compare] in H1.
+        replace (N.of_nat (length (rts s)) <=? N.of_nat i) with false in H
+          by (symmetry; apply N.leb_gt; lia).
+        rewrite Nat2N.id in H. change (N.to_nat 0) with 0%nat in H1.
+        eapply trans_dec_solo; eauto.
+      + rewrite (proj_id_other x Hx) in H1. change (N.of_nat 1 <=? FOREIGN) with true in H1.
+        inversion H1; subst s1'. clear H1.
+        destruct (N.of_nat (length (rts s)) <=? x); [inversion H; subst; exact HR|].
+        assert (Hj : N.to_nat x <> i) by (intros Hc; apply Hx; rewrite <- Hc, N2Nat.id; reflexivity).
+        eapply trans_dec_other; eauto.
+    - (* TimerEnd x *)
+      destruct (N.eqb_spec x (N.of_nat i)) as [->|Hx].
+      + rewrite proj_id_same in H1. cbn [N.of_nat N.leb N.compare] in H1.
+        replace (N.of_nat (length (rts s)) <=? N.of_nat i) with false in H
+          by (symmetry; apply N.leb_gt; lia).
+        rewrite Nat2N.id in H. change (N.to_nat 0) with 0%nat in H1.
+        mbind H as [sa b] E. mbind H1 as [sa1 b1] E1. inversion H; inversion H1; subst.
+        exact (proj1 (transition_solo _ _ _ _ _ _ _ _ HR E E1)).
+      + rewrite (proj_id_other x Hx) in H1. change (N.of_nat 1 <=? FOREIGN) with true in H1.
+        inversion H1; subst s1'. clear H1.
+        destruct (N.of_nat (length (rts s)) <=? x); [inversion H; subst; exact HR|].
+        assert (Hj : N.to_nat x <> i) by (intros Hc; apply Hx; rewrite <- Hc, N2Nat.id; reflexivity).
+        mbind H as [sa b] E. inversion H; subst.
+        eapply transition_other; eauto.
+  Qed.
+
+  Lemma events_solo : forall evs s s1 s' s1',
+    Rel s s1 ->
+    foldM (process_event c tp) evs s = Ok s' ->
+    foldM (process_event c1 tp1) (map (proj_event i) evs) s1 = Ok s1' -> Rel s' s1'.
+  Proof.
+    induction evs as [|e evs IH]; intros s s1 s' s1' HR H H1; cbn [map foldM] in H, H1.
+    - inversion H; inversion H1; subst; exact HR.
+    - mbind H as sa E. mbind H1 as sa1 E1. eapply IH; [|exact H|exact H1].
+      eapply process_event_solo; eauto.
+  Qed.
+
+  (** *** one call *)
+  Lemma begin_call_solo : forall s s1 t, Rel s s1 -> Rel (begin_call s t) (begin_call s1 t).
+  Proof.
+    intros s s1 t []. unfold begin_call. constructor; cbn; auto.
+    - destruct rl_rt0 as (r & Hr & Hr1). exists (rt_clear_z r). split.
+      + apply map_nth_error. exact Hr.
+      + rewrite Hr1. reflexivity.
+    - destruct rl_slot0 as (sl & Hs & Hs1). exists None. split.
+      + rewrite nth_error_map, Hs. reflexivity.
+      + rewrite Hs1. reflexivity.
+  Qed.
+
+  Lemma signal_round_solo : forall s s1 s' s1',
+    Rel s s1 -> signal_round c tp s = Ok s' -> signal_round c1 tp1 s1 = Ok s1' -> Rel s' s1'.
+  Proof.
+    unfold signal_round; intros s s1 s' s1' HR H H1.
+    rewrite (rl_sig _ _ HR) in H. rewrite (rl_sig1 _ _ HR) in H1.
+    inversion H; inversion H1; subst; exact HR.
+  Qed.
+
+  Lemma collect_solo : forall s s1, Rel s s1 -> SlotInv c s ->
+    acts_of i (collect_actions (slots s)) = map (rename_to i) (collect_actions (slots s1)).
+  Proof.
+    intros s s1 HR HS. destruct (rl_slot _ _ HR) as (sl & Hs & Hs1).
+    unfold acts_of. rewrite (filter_collect (slots s) N.of_nat i).
+    - rewrite Hs, Hs1. destruct sl; reflexivity.
+    - intros j ta Hj. apply HS in Hj. exact (proj1 Hj).
+    - intros j Hj E. apply Nat2N.inj in E. contradiction.
+  Qed.
+
+  Lemma trigger_events_solo : forall s s1 evs t s' acts s1' acts1,
+    Rel s s1 ->
+    trigger_events c tp s evs t = Ok (s', acts) ->
+    trigger_events c1 tp1 s1 (map (proj_event i) evs) t = Ok (s1', acts1) ->
+    Rel s' s1' /\ acts_of i acts = map (rename_to i) acts1.
+  Proof.
+    intros s s1 evs t s' acts s1' acts1 HR H H1.
+    destruct (trigger_events_SlotInv _ _ _ _ _ _ _ H) as [HS _].
+    unfold trigger_events in H, H1.
+    mbind H as sa E. mbind H1 as sa1 E1. mbind H as sb Eb. mbind H1 as sb1 Eb1.
+    inversion H; inversion H1; subst.
+    assert (HRa : Rel sa sa1) by (eapply events_solo; [apply begin_call_solo; exact HR|exact E|exact E1]).
+    assert (HRb : Rel s' s1') by (eapply signal_round_solo; eauto).
+    split; [exact HRb|apply collect_solo; assumption].
+  Qed.
+
+  (** *** the initial states *)
+  Lemma fnew_solo : forall t0 s0 s10,
+    fnew c tp t0 = Ok s0 -> fnew c1 tp1 t0 = Ok s10 -> Rel s0 s10.
+  Proof.
+    unfold fnew; intros t0 s0 s10 H H1.
+    mbind H as [rs p] E. mbind H1 as [rs1 p1] E1. inversion H; inversion H1; subst.
+    destruct (init_rts_nth _ _ _ _ _ _ _ E Hm) as (st0 & q & Hst & Hr).
+    change (machines c1) with [m] in *. cbn [init_rts] in E1.
+    unfold get in E1. rewrite Hst in E1. cbn [bind] in E1.
+    destruct (match saction st0 with Some a => sample_limit tp1 0 a | None => (0, 0%nat) end) as [l1 q1] eqn:El1.
+    cbn [bind] in E1. inversion E1; subst.
+    assert (Hl : l1 = match saction st0 with Some a => fst (sample_limit tp q a) | None => 0 end).
+    { pose proof (Hdet st0 (nth_error_In _ _ Hst)) as Hds.
+      destruct (saction st0) as [a|] eqn:Ea; [|inversion El1; reflexivity].
+      rewrite (sample_limit_det tp q tp1 0%nat a (ds_act K st0 Hds a Ea)), El1. reflexivity. }
+    rewrite <- Hl in Hr.
+    constructor; cbn; auto.
+    - eexists. split; [exact Hr|reflexivity].
+    - exists None. split; [|reflexivity]. rewrite nth_error_map, Hm. reflexivity.
+  Qed.
+
+  (** *** a whole history *)
+  Lemma run_solo : forall h s s1 s' outs s1' outs1,
+    Rel s s1 ->
+    run c tp s h = Ok (s', outs) -> run c1 tp1 s1 (proj_hist i h) = Ok (s1', outs1) ->
+    Rel s' s1' /\ map (acts_of i) outs = map (map (rename_to i)) outs1.
+  Proof.
+    induction h as [|[evs t] h IH]; intros s s1 s' outs s1' outs1 HR H H1;
+      unfold proj_hist in H1; cbn [run map] in H, H1.
+    - inversion H; inversion H1; subst. split; [exact HR|reflexivity].
+    - fold (proj_hist i h) in H1. mbind H as [sa acts] E. mbind H1 as [sa1 acts1] E1.
+      mbind H as [sb rest] Eb. mbind H1 as [sb1 rest1] Eb1.
+      inversion H; inversion H1; subst.
+      destruct (trigger_events_solo _ _ _ _ _ _ _ _ HR E E1) as [HRa Ha].
+      destruct (IH _ _ _ _ _ _ HRa Eb Eb1) as [HRb Hb].
+      split; [exact HRb|]. cbn [map]. rewrite Ha, Hb. reflexivity.
+  Qed.
 (* SIM-END *)
 End Sim.
+
+
+(** ** C10, the simulation theorem (parametrised by the admissible draws [K]) *)
+Theorem solo_equals_combined : forall (K : N -> Prop) c i m tp tp1 t0 h s0 s outs s10 s1 outs1,
+  nth_error (machines c) i = Some m -> det_machine K m -> no_signal c ->
+  tape_in K tp -> tape_in K tp1 ->
+  fnew c tp t0 = Ok s0 -> run c tp s0 h = Ok (s, outs) ->
+  fnew (solo_cfg c m) tp1 t0 = Ok s10 -> run (solo_cfg c m) tp1 s10 (proj_hist i h) = Ok (s1, outs1) ->
+  map (acts_of i) outs = map (map (rename_to i)) outs1.
+Proof.
+  intros K c i m tp tp1 t0 h s0 s outs s10 s1 outs1 Hm Hdet Hns Htp Htp1 F R F1 R1.
+  pose proof (fnew_solo K c i m tp tp1 Hm Hdet t0 s0 s10 F F1) as HR0.
+  exact (proj2 (run_solo K c i m tp tp1 Hm Hdet Hns Htp Htp1 h s0 s10 s outs s1 outs1 HR0 R R1)).
+Qed.
+
+(** the call-by-call form, from any pair of related states *)
+Definition C10_Rel := Rel.
+
+Theorem solo_equals_combined_call : forall (K : N -> Prop) c i m tp tp1 s s1 evs t s' acts s1' acts1,
+  nth_error (machines c) i = Some m -> det_machine K m -> no_signal c ->
+  tape_in K tp -> tape_in K tp1 ->
+  Rel i s s1 ->
+  trigger_events c tp s evs t = Ok (s', acts) ->
+  trigger_events (solo_cfg c m) tp1 s1 (map (proj_event i) evs) t = Ok (s1', acts1) ->
+  Rel i s' s1' /\ acts_of i acts = map (rename_to i) acts1.
+Proof.
+  intros K c i m tp tp1 s s1 evs t s' acts s1' acts1 Hm Hdet Hns Htp Htp1.
+  exact (trigger_events_solo K c i m tp tp1 Hm Hdet Hns Htp Htp1 s s1 evs t s' acts s1' acts1).
+Qed.
+
+(** ** syntactic sufficient conditions *)
+Definition ONE32 : N := 1065353216.   (* 1.0f32 *)
+
+Definition det_dist_b (d : dist) : bool :=
+  match dtype d with Uniform lo hi => feq (f64_of_bits lo) (f64_of_bits hi) | _ => false end.
+Definition det_odist_b (o : option dist) : bool :=
+  match o with Some d => det_dist_b d | None => true end.
+Definition det_action_b (a : action) : bool :=
+  match a with
+  | Cancel _ => true
+  | SendPadding _ _ t l => det_dist_b t && det_odist_b l
+  | BlockOutgoing _ _ t d l => det_dist_b t && det_dist_b d && det_odist_b l
+  | UpdateTimer _ d l => det_dist_b d && det_odist_b l
+  end.
+Definition det_ocounter_b (o : option counter) : bool :=
+  match o with Some cn => ccopy cn || det_odist_b (cdist cn) | None => true end.
+(** an empty vector, or a first target with probability 1.0 *)
+Definition det_trans_b (v : list trans) : bool :=
+  match v with [] => true | (_, p) :: _ => p =? ONE32 end.
+Definition det_state_b (st : state) : bool :=
+  match saction st with Some a => det_action_b a | None => true end
+  && det_ocounter_b (sctr_a st) && det_ocounter_b (sctr_b st)
+  && forallb (fun o => match o with Some v => det_trans_b v | None => true end) (strans st).
+Definition det_machine_b (m : machine) : bool := forallb det_state_b (states m).
+
+Definition no_signal_b (c : cfg) : bool :=
+  forallb (fun m => forallb (fun st => forallb (fun o =>
+    match o with
+    | Some v => forallb (fun tpr : trans => negb (fst tpr =? STATE_SIGNAL)) v
+    | None => true
+    end) (strans st)) (states m)) (machines c).
+
+(** the draws of the real generator *)
+Definition K23 (k : N) : Prop := k < 2 ^ 23.
+
+Lemma det_dist_b_sound : forall d, det_dist_b d = true -> det_dist d.
+Proof. unfold det_dist_b, det_dist; intros d H. destruct (dtype d); try discriminate; exact H. Qed.
+
+Lemma det_odist_b_sound : forall o, det_odist_b o = true -> det_odist o.
+Proof. intros [d|] H; [apply det_dist_b_sound; exact H|exact I]. Qed.
+
+Lemma det_action_b_sound : forall a, det_action_b a = true -> det_action a.
+Proof.
+  intros [t|b r t l|b r t d l|r d l] H; cbn in H |- *; split_andb;
+    auto using det_dist_b_sound, det_odist_b_sound.
+Qed.
+
+Lemma det_ocounter_b_sound : forall o, det_ocounter_b o = true -> det_ocounter o.
+Proof.
+  intros [cn|] H; [|exact I]. cbn in H |- *. unfold det_counter.
+  apply orb_prop in H. destruct H as [H|H]; [left; exact H|right; apply det_odist_b_sound; exact H].
+Qed.
+
+Lemma det_trans_b_sound : forall v, det_trans_b v = true -> det_trans K23 v.
+Proof.
+  intros [|[t p] v] H k k' Hk Hk'; [reflexivity|].
+  cbn [det_trans_b] in H. apply N.eqb_eq in H. subst p.
+  assert (P : forall k0, K23 k0 ->
+            pick_trans ((t, ONE32) :: v) f32_zero (f32_of_k k0) = Some t).
+  { intros k0 Hk0. pose proof (prob_one_always t k0 Hk0) as Q.
+    cbn [pick_trans] in Q |- *. fold ONE32 in Q.
+    destruct (flt32 (f32_of_k k0) (fadd32 f32_zero (f32_of_bits ONE32))); [reflexivity|discriminate Q]. }
+  transitivity (Some t); [apply P; exact Hk|symmetry; apply P; exact Hk'].
+Qed.
+
+Theorem det_machine_b_sound : forall m, det_machine_b m = true -> det_machine K23 m.
+Proof.
+  unfold det_machine_b, det_machine; intros m H st Hst.
+  rewrite forallb_forall in H. specialize (H st Hst). unfold det_state_b in H. split_andb.
+  constructor.
+  - intros a Ha. match goal with Hx : match saction st with _ => _ end = true |- _ => rewrite Ha in Hx; apply det_action_b_sound; exact Hx end.
+  - apply det_ocounter_b_sound; assumption.
+  - apply det_ocounter_b_sound; assumption.
+  - intros v Hv. match goal with Hx : forallb _ (strans st) = true |- _ =>
+      rewrite forallb_forall in Hx; specialize (Hx (Some v) Hv); cbn in Hx end.
+    apply det_trans_b_sound; assumption.
+Qed.
+
+Theorem no_signal_b_sound : forall c, no_signal_b c = true -> no_signal c.
+Proof.
+  unfold no_signal_b, no_signal, no_signal_machine; intros c H m Hm st v t p Hst Hv Ht.
+  rewrite forallb_forall in H. specialize (H m Hm).
+  rewrite forallb_forall in H. specialize (H st Hst).
+  rewrite forallb_forall in H. specialize (H (Some v) Hv). cbn in H.
+  rewrite forallb_forall in H. specialize (H (t, p) Ht). cbn [fst] in H.
+  destruct (N.eqb_spec t STATE_SIGNAL); [discriminate H|assumption].
+Qed.
+
+(** C10 for the machines of DESIGN.md (probability-1 vectors, constant
+    distributions), on tapes whose entries are 23-bit draws *)
+Theorem solo_equals_combined_23 : forall c i m tp tp1 t0 h s0 s outs s10 s1 outs1,
+  nth_error (machines c) i = Some m -> det_machine_b m = true -> no_signal_b c = true ->
+  (forall p, tp p < 2 ^ 23) -> (forall p, tp1 p < 2 ^ 23) ->
+  fnew c tp t0 = Ok s0 -> run c tp s0 h = Ok (s, outs) ->
+  fnew (solo_cfg c m) tp1 t0 = Ok s10 -> run (solo_cfg c m) tp1 s10 (proj_hist i h) = Ok (s1, outs1) ->
+  map (acts_of i) outs = map (map (rename_to i)) outs1.
+Proof.
+  intros c i m tp tp1 t0 h s0 s outs s10 s1 outs1 Hm Hd Hn Ht Ht1.
+  apply (solo_equals_combined K23 c i m tp tp1 t0 h s0 s outs s10 s1 outs1 Hm);
+    [apply det_machine_b_sound; exact Hd|apply no_signal_b_sound; exact Hn|exact Ht|exact Ht1].
+Qed.
+
+(** machines whose vectors are constant over ALL of N (in particular machines
+    that never move): every pair of tapes *)
+Theorem solo_equals_combined_all_tapes : forall c i m tp tp1 t0 h s0 s outs s10 s1 outs1,
+  nth_error (machines c) i = Some m -> det_machine (fun _ => True) m -> no_signal c ->
+  fnew c tp t0 = Ok s0 -> run c tp s0 h = Ok (s, outs) ->
+  fnew (solo_cfg c m) tp1 t0 = Ok s10 -> run (solo_cfg c m) tp1 s10 (proj_hist i h) = Ok (s1, outs1) ->
+  map (acts_of i) outs = map (map (rename_to i)) outs1.
+Proof.
+  intros c i m tp tp1 t0 h s0 s outs s10 s1 outs1 Hm Hd Hn.
+  apply (solo_equals_combined (fun _ => True) c i m tp tp1 t0 h s0 s outs s10 s1 outs1 Hm Hd Hn);
+    intros p; exact I.
+Qed.
+
+(** ** the statement without a hypothesis on the tapes is false *)
+Definition cx_state : state :=
+  mkstate (Some (SendPadding false false (mkdist (Uniform 0 0) 0 0) None)) None None
+          [None; None; None; Some [(0, ONE32)]; None; None; None; None; None; None; None; None; None].
+Definition cx_machine : machine := mkmachine 1000 0 0 0 [cx_state].
+Definition cx_cfg : cfg := mkcfg [cx_machine] 0 0 vclock.
+Definition cx_hist : list (list trigger_event * Z) := [([TENormalSent], 1%Z)].
+Definition cx_outs (c : cfg) (tp : tape) (h : list (list trigger_event * Z)) : option (list (list taction)) :=
+  match fnew c tp 0%Z with
+  | Ok s0 => match run c tp s0 h with Ok (_, outs) => Some outs | _ => None end
+  | _ => None
+  end.
+
+(** a probability-1 machine, alone in the configuration (so combined = solo
+    configuration, i = 0): with draws 0 it pads on NormalSent; on a tape whose
+    entries are 2^23 (r = 1.0, not < 1.0) it does nothing *)
+Example cx_tape_zero : cx_outs cx_cfg (fun _ => 0) cx_hist = Some [[TSendPadding 0 0 false false]].
+Proof. vm_compute. reflexivity. Qed.
+
+Example cx_tape_big :
+  cx_outs (solo_cfg cx_cfg cx_machine) (fun _ => 2 ^ 23) (proj_hist 0 cx_hist) = Some [[]].
+Proof. vm_compute. reflexivity. Qed.
+
+Theorem solo_tape_counterexample :
+  exists c i m tp tp1 t0 h s0 s outs s10 s1 outs1,
+    nth_error (machines c) i = Some m /\ det_machine_b m = true /\ no_signal_b c = true /\
+    fnew c tp t0 = Ok s0 /\ run c tp s0 h = Ok (s, outs) /\
+    fnew (solo_cfg c m) tp1 t0 = Ok s10 /\ run (solo_cfg c m) tp1 s10 (proj_hist i h) = Ok (s1, outs1) /\
+    map (acts_of i) outs <> map (map (rename_to i)) outs1.
+Proof.
+  exists cx_cfg, 0%nat, cx_machine, (fun _ => 0), (fun _ => 2 ^ 23), 0%Z, cx_hist.
+  pose proof cx_tape_zero as A. pose proof cx_tape_big as B. unfold cx_outs in A, B.
+  destruct (fnew cx_cfg (fun _ => 0) 0%Z) as [s0| |] eqn:F; try discriminate A.
+  destruct (run cx_cfg (fun _ => 0) s0 cx_hist) as [[s outs]| |] eqn:R; try discriminate A.
+  destruct (fnew (solo_cfg cx_cfg cx_machine) (fun _ => 2 ^ 23) 0%Z) as [s10| |] eqn:F1; try discriminate B.
+  destruct (run (solo_cfg cx_cfg cx_machine) (fun _ => 2 ^ 23) s10 (proj_hist 0 cx_hist)) as [[s1 outs1]| |] eqn:R1;
+    try discriminate B.
+  exists s0, s, outs, s10, s1, outs1.
+  inversion A; inversion B; subst.
+  split; [reflexivity|]. split; [vm_compute; reflexivity|]. split; [vm_compute; reflexivity|].
+  split; [reflexivity|]. split; [exact R|]. split; [reflexivity|]. split; [exact R1|].
+  intro X. vm_compute in X. discriminate X.
+Qed.
+
+Print Assumptions solo_equals_combined.
+Print Assumptions solo_equals_combined_23.
+Print Assumptions solo_tape_counterexample.
